@@ -552,8 +552,8 @@ class Lit:
         ms = []
         for st, w in terms:
             letters = ['(%d%%nat, %s)' % (k - lo, z(self.op(o))) for k, o in sorted(w.items()) if o != 'Id']
-            ms.append('(%s, [%s])' % (self.c([st.real, st.imag]), '; '.join(letters)))
-        return '[' + '; '.join(ms) + ']'
+            ms.append('(%s, %s)' % (self.c([st.real, st.imag]), '[' + '; '.join(letters) + ']' if letters else '(@nil letter)'))
+        return '[' + '; '.join(ms) + ']' if ms else '(@nil mono)'
 
 
 def grid_edges(grids):
@@ -693,8 +693,15 @@ def check_case(ctx, case, r, fam_store):
             if case['spec'].get('explicit_plus_hc'):
                 H2 = 0.5 * (H2 + H2.conj().T)
                 os2 = {k: 0.5 * (m_ + m_.conj().T) for k, m_ in os2.items()}
-        else:
+        elif 'onsite' in r:
             H2, os2 = O.dense_from_containers(r, dense2)
+        else:
+            # a predefined model without term containers (e.g. AKLTChain): the on-site parts left behind by the two cut bonds
+            # cannot be predicted from containers; use the bond operator of the implementation's own MPO on two sites
+            H2, os2 = None, {}
+        if H2 is None:
+            mats.pop('H_mpo_from_bond', None)
+            H2 = np.zeros((int(np.prod(dense2.dims)),) * 2)
         Cb = H2 - sum(os2.values()) if os2 else H2
         dL_, dR_ = dense2.dims
         C4 = Cb.reshape(dL_, dR_, dL_, dR_)
@@ -916,6 +923,9 @@ def coq_cases_for(case, r, geo):
         cts = '[' + '; '.join('mkCT %d%%nat %s %s %d%%nat %s %s' % (i, z(lit3.op(a)), z(lit3.op(s)), j, z(lit3.op(b)), lit3.c(st))
                               for i, a, s, j, b, st in r['coupling']) + ']'
         g3 = lit3.graph(r['graph'])
+        # (typed empty lists: a shard in which every case has no on-site / no coupling terms must still type-check)
+        ots = '(@nil oterm)' if ots == '[]' else ots
+        cts = '(@nil cterm)' if cts == '[]' else cts
         if lit3.ok:
             out['build'] = '(%d%%nat, %s, %s, %s)' % (L, ots, cts, g3)
     if (r['finite'] and r.get('multi') is not None and not r['exp']['exp'] and not r['exp']['centered']
@@ -928,14 +938,271 @@ def coq_cases_for(case, r, geo):
             '[' + '; '.join('(%d%%nat, %s, %s)' % (i, z(lit4.op(a)), z(lit4.op(s))) for i, a, s in t['right']) + ']',
             t['sw'], z(lit4.op(t['op_sw'])), lit4.c(t['strength'])) for t in r['multi']) + ']'
         g4 = lit4.graph_m(r['graph'])
+        ots = '(@nil oterm)' if ots == '[]' else ots
+        mts = '(@nil mterm)' if mts == '[]' else mts
         if lit4.ok:
             out['build_multi'] = '(%d%%nat, %s, %s, %s)' % (L, ots, mts, g4)
     return out
 
 
+# ------------------------------------------------------------------------------------------
+# tie streams: Model/BondSum.v (c10_bond), Model/ExpDecay.v (c10_expdecay), split_term (c10_split)
+# ------------------------------------------------------------------------------------------
+
+def gen_tie_specs(rng, n_bond, n_exp):
+    """chain models with exact strengths aimed at the Coq models of calc_H_bond (on-site + nearest-neighbour terms, finite and
+    infinite) and of ExponentiallyDecayingTerms.add_to_graph (finite, uniform Gaussian-integer lambda, default subsites)"""
+    cases = []
+    for n in range(n_bond + n_exp):
+        want_exp = n >= n_bond
+        for _try in range(40):
+            infinite = (not want_exp) and rng.random() < 0.4
+            L = rng.choice([1, 2, 2, 3]) if infinite else rng.choice([2, 3, 4, 5, 6])
+            nwin = 1
+            if infinite:
+                nwin = rng.choice([2, 3]) if L <= 2 else 2
+            sites = gen_sites(rng, 1, L * nwin)
+            if sites is None:
+                continue
+            T = SITES[sites[0]['type']]
+            lat = {'kind': 'Chain', 'Ls': [L], 'bc': 'periodic' if infinite else 'open', 'bc_MPS': 'infinite' if infinite else 'finite'}
+            calls = []
+
+            def onsite_or_coupling(maxdx):
+                plus_hc = rng.random() < 0.35
+                k = rng.choice(['onsite', 'coupling', 'coupling', 'onsite_term', 'coupling_term'])
+                if k == 'onsite':
+                    ops = T['onsite0'] + (T['onsite1'] if level(sites[0]) else [])
+                    return {'fn': 'add_onsite', 'strength': rand_strength(rng, [L], True), 'u': 0, 'op': rng.choice(ops), 'plus_hc': plus_hc}
+                if k == 'onsite_term':
+                    ops = T['onsite0'] + (T['onsite1'] if level(sites[0]) else [])
+                    return {'fn': 'add_onsite_term', 'strength': rand_strength(rng, None, True, allow_array=False),
+                            'i': rng.randrange(L), 'op': rng.choice(ops), 'plus_hc': plus_hc}
+                dx = rng.randint(1, maxdx)
+                if k == 'coupling':
+                    pr = pick_pair(rng, sites, 0, 0)
+                    if infinite:
+                        shape = [L]
+                    else:
+                        shape = [L - dx]
+                    if shape[0] <= 0:
+                        return None
+                    if rng.random() < 0.25:
+                        dx = -dx        # (the coupling is reordered to i < j by add_coupling)
+                    return {'fn': 'add_coupling', 'strength': rand_strength(rng, shape, True), 'u1': 0, 'op1': pr[0], 'u2': 0, 'op2': pr[1],
+                            'dx': [dx], 'plus_hc': plus_hc}
+                prs = [q for q in T['pairs0'] if q[0] not in T['fer']]
+                if not prs:
+                    return None
+                pr = rng.choice(prs)
+                i = rng.randrange(L)
+                if not infinite and i + dx >= L:
+                    return None
+                return {'fn': 'add_coupling_term', 'strength': rand_strength(rng, None, True, allow_array=False), 'i': i, 'j': i + dx,
+                        'op_i': pr[0], 'op_j': pr[1], 'op_string': 'Id', 'plus_hc': plus_hc}
+            if want_exp:
+                for _ in range(rng.choice([1, 1, 2])):
+                    pr = pick_pair(rng, sites, 0, 0)
+                    lam = rng.choice([1, 2, -1, 3, -2])
+                    lam_enc = enc(np.array(lam), 'int' if rng.random() < 0.5 else 'float')
+                    if rng.random() < 0.3:
+                        lam_enc = enc(np.array(complex(rng.choice([1, 2, 0, -1]), rng.choice([1, -1, 2]))), 'complex')
+                    calls.append({'fn': 'add_exponentially_decaying_coupling', 'strength': rand_strength(rng, None, True, allow_array=False),
+                                  'lambda': lam_enc, 'op_i': pr[0], 'op_j': pr[1], 'plus_hc': rng.random() < 0.3})
+                for _ in range(rng.choice([0, 0, 1, 2])):
+                    c = onsite_or_coupling(2)
+                    if c is not None:
+                        calls.append(c)
+                rng.shuffle(calls)
+            else:
+                for _ in range(rng.choice([1, 2, 3, 4])):
+                    c = onsite_or_coupling(1)
+                    if c is not None:
+                        calls.append(c)
+            if not calls:
+                continue
+            spec = {'lattice': lat, 'sites': sites, 'explicit_plus_hc': False, 'calls': calls}
+            cases.append({'kind': 'spec', 'spec': spec, 'nwin': nwin, 'family': 'T%d' % n, 'variant': 'base', 'exact': True,
+                          'want': ['bond'], 'tie': 'exp' if want_exp else 'bond'})
+            break
+    return cases
+
+
+def bond_literal(r):
+    """case of check_bond (coq/Model/AutomatonTieCheck.v): the containers and the implementation's H_bond, every H_bond[j]
+    decomposed into named operator products with exact (doubled) Gaussian-integer coefficients.
+    Returns (literal or None, reason skipped or None, problem text or None)."""
+    if 'H_bond_none' not in r or r.get('coupling') is None or 'onsite' not in r:
+        return None, None, None
+    if r['explicit_plus_hc']:
+        return None, 'bond: explicit_plus_hc', None
+    L, finite = r['L'], r['finite']
+    npz = np.load(r['npz'])
+    nu = len(r['needs_JW'])
+    ops = O.load_ops(npz, nu)
+
+    def u_of(k):
+        return r['order'][k % L][-1]
+    lit = Lit()
+    ots = '[' + '; '.join('mkOT %d%%nat %s %s' % (i, z(lit.op(op)), lit.c(st)) for i, op, st in r['onsite']) + ']'
+    cts = '[' + '; '.join('mkCT %d%%nat %s %s %d%%nat %s %s' % (i, z(lit.op(a)), z(lit.op(s_)), j, z(lit.op(b)), lit.c(st))
+                          for i, a, s_, j, b, st in r['coupling']) + ']'
+    if not lit.ok:
+        return None, 'bond: non-integer strengths', None
+    ots = '(@nil oterm)' if ots == '[]' else ots
+    cts = '(@nil cterm)' if cts == '[]' else cts
+    all_pairs = []
+    for i, a, s_, j, b, st in r['coupling']:
+        if (a, b) not in all_pairs:
+            all_pairs.append((a, b))
+    all_onsite = []
+    for i, op, st in r['onsite']:
+        if op not in all_onsite:
+            all_onsite.append(op)
+    bonds = []
+    for j in range(L):
+        i0 = (j - 1) % L
+        uL, uR = u_of(i0), u_of(j)
+        if r['H_bond_none'][j]:
+            bonds.append('(true, @nil lmono)')
+            continue
+        M = npz['Hb/%d' % j]
+        pred = []
+        for i, op, st in r['onsite']:
+            if i == j and ('Id', op) not in pred:
+                pred.append(('Id', op))
+        for i, op, st in r['onsite']:
+            if i == i0 and (op, 'Id') not in pred:
+                pred.append((op, 'Id'))
+        for i, a, s_, jj, b, st in r['coupling']:
+            if jj % L == j and (a, b) not in pred:
+                pred.append((a, b))
+        extra = [('Id', 'Id')] + all_pairs + [('Id', op) for op in all_onsite] + [(op, 'Id') for op in all_onsite]
+        basis, cols = [], []
+        Q = np.zeros((M.size, 0), dtype=complex)
+        for n, (a, b) in enumerate(pred + [e for e in extra if e not in pred]):
+            if a not in ops[uL] or b not in ops[uR]:
+                if n < len(pred):
+                    return None, None, 'H_bond[%d]: operator %r / %r of the containers unknown on the sites of the bond' % (j, a, b)
+                continue
+            v = np.kron(ops[uL][a], ops[uR][b]).astype(complex).reshape(-1)
+            if v.size != M.size:
+                return None, None, 'H_bond[%d] has %d entries, expected %d' % (j, M.size, v.size)
+            w = v - Q @ (Q.conj().T @ v)
+            w = w - Q @ (Q.conj().T @ w)
+            if np.linalg.norm(w) <= 1e-9 * max(1.0, np.linalg.norm(v)):
+                if n < len(pred):
+                    return None, 'bond: linearly dependent operator names', None
+                continue
+            Q = np.concatenate([Q, (w / np.linalg.norm(w)).reshape(-1, 1)], axis=1)
+            basis.append((a, b))
+            cols.append(v)
+        A = np.array(cols).T if cols else np.zeros((M.size, 0), dtype=complex)
+        y = M.astype(complex).reshape(-1)
+        x = np.linalg.lstsq(A, y, rcond=None)[0] if cols else np.zeros(0)
+        res = float(np.max(np.abs(A @ x - y))) if M.size else 0.0
+        if res > 1e-9 * max(1.0, float(np.max(np.abs(y)))):
+            return None, None, ('H_bond[%d] is not a combination of the named operator products of the containers (residual %.2e, '
+                                'products %r)' % (j, res, basis))
+        ms = []
+        for (a, b), cf in zip(basis, x):
+            g = gauss([2 * cf.real, 2 * cf.imag])
+            if g is None:
+                return None, None, 'H_bond[%d]: coefficient %r of %s (x) %s is not half of a Gaussian integer' % (j, complex(cf), a, b)
+            if g != (0, 0):
+                ms.append('((%s, %s), %s, %s)' % (z(g[0]), z(g[1]), z(lit.op(a)), z(lit.op(b))))
+        bonds.append('(false, [%s])' % '; '.join(ms) if ms else '(false, @nil lmono)')
+    return '(%s, %d%%nat, %s, %s, [%s])' % ('true' if finite else 'false', L, ots, cts, '; '.join(bonds)), None, None
+
+
+def exp_literal(r):
+    """case of check_expdecay_all: containers, exp_decaying_terms (uniform Gaussian-integer lambda, default subsites) and the
+    implementation's graph of MPOGraph.from_terms((ot, ct, edt)) on a finite chain"""
+    import re
+    if not r.get('finite') or r.get('coupling') is None or 'graph' not in r or 'onsite' not in r:
+        return None, None
+    ex = r['exp']
+    if not ex['exp'] or ex['centered']:
+        return None, None
+    L = r['L']
+    lit = Lit()
+    xts = []
+    for t in ex['exp']:
+        if t['subsites'] != list(range(L)) or t['subsites_start'] != list(range(L)):
+            return None, 'exp: subsites'
+        if any(x != t['lambda'][0] for x in t['lambda']):
+            return None, 'exp: non-uniform lambda'
+        xts.append('mkXT %s %s %s %s %s' % (z(lit.op(t['op_i'])), z(lit.op(t['op_string'])), z(lit.op(t['op_j'])),
+                                           lit.c(t['lambda'][0]), lit.c(t['strength'])))
+    ots = '[' + '; '.join('mkOT %d%%nat %s %s' % (i, z(lit.op(op)), lit.c(st)) for i, op, st in r['onsite']) + ']'
+    cts = '[' + '; '.join('mkCT %d%%nat %s %s %d%%nat %s %s' % (i, z(lit.op(a)), z(lit.op(s_)), j, z(lit.op(b)), lit.c(st))
+                          for i, a, s_, j, b, st in r['coupling']) + ']'
+
+    ots = '(@nil oterm)' if ots == '[]' else ots
+    cts = '(@nil cterm)' if cts == '[]' else cts
+
+    def k(x):
+        if isinstance(x, str):
+            m = re.match(r"^K:\((\d+), 'exp-decay'\)$", x)
+            if m:
+                return int(m.group(1))
+        return x
+    graph = [[[k(kl), k(kr), op, st] for kl, kr, op, st in es] for es in r['graph']]
+    g = lit.graph(graph)
+    if lit.keys:
+        return None, 'exp: unknown keys'
+    if not lit.ok:
+        return None, 'exp: non-integer strengths'
+    return '(%d%%nat, %s, %s, [%s], %s)' % (L, ots, cts, '; '.join(xts), g), None
+
+
+def gen_split_cases(rng, n):
+    """arguments of MultiCouplingTerms.add_multi_coupling_term on finite chains (all sites < L)"""
+    names = ['A', 'B', 'Cd', 'C', 'N', 'Sz', 'Id']
+    strs = ['Id', 'JW', 'X', 'Id']
+    out = []
+    for _ in range(n):
+        L = rng.randint(2, 9)
+        nops = rng.randint(2, min(5, L))
+        ijkl = sorted(rng.sample(range(L), nops))
+        ops = [rng.choice(names) for _ in ijkl]
+        if rng.random() < 0.3:
+            op_string = rng.choice(strs)
+        else:
+            op_string = [rng.choice(strs) for _ in ijkl[1:]]
+        sw = rng.choice(['middle_i', 'middle_op', None, 'int', 'int', 'edge'])
+        if sw == 'int':
+            sw = rng.randint(ijkl[0], ijkl[-1])
+        elif sw == 'edge':
+            sw = rng.choice([ijkl[0], ijkl[-1]])
+        st = rng.choice([[1, 0], [2, 0], [-3, 0], [2, 1], [0, -1]])
+        out.append({'L': L, 'ijkl': ijkl, 'ops': ops, 'op_string': op_string, 'switchLR': sw,
+                    'strength': {'re': st[0], 'im': st[1], 'dtype': 'complex' if st[1] else 'int'}})
+    return out
+
+
+def split_literal(c, res):
+    lit = Lit()
+    nops = len(c['ijkl'])
+    strs = c['op_string'] if isinstance(c['op_string'], list) else [c['op_string']] * (nops - 1)
+    ops = '[' + '; '.join('(%d%%nat, %s)' % (i, z(lit.op(o))) for i, o in zip(c['ijkl'], c['ops'])) + ']'
+    ss = '[' + '; '.join(z(lit.op(s_)) for s_ in strs) + ']'
+    sw = c['switchLR']
+    spec = -1 if sw in ('middle_i', None) else (-2 if sw == 'middle_op' else int(sw))
+    w = lit.c([c['strength']['re'], c['strength']['im']])
+    if 'error' in res or len(res.get('stored', [])) != 1 or res['stored'][0]['shift'] != 0:
+        return None
+    t = res['stored'][0]
+    mt = 'mkMT %s %s %d%%nat %s %s' % (
+        '[' + '; '.join('(%d%%nat, %s, %s)' % (i, z(lit.op(a)), z(lit.op(s_))) for i, a, s_ in t['left']) + ']',
+        '[' + '; '.join('(%d%%nat, %s, %s)' % (i, z(lit.op(a)), z(lit.op(s_))) for i, a, s_ in t['right']) + ']',
+        t['sw'], z(lit.op(t['op_sw'])), lit.c(t['strength']))
+    return '(%s, %s, %s, %s, %s)' % (ops, ss, z(spec), w, mt)
+
+
 def main(ctx):
     rng = ctx.rng
-    ctx.proof = common.check_proofs('C10')
+    ctx.proof = common.check_proofs('C10', extra_targets=['Model/AutomatonTieCheck.vo'])
     nfam = ctx.pick(170, 1500)
     per_class = ctx.pick(1, 6)
     if not ctx.proof.ok:
@@ -960,6 +1227,9 @@ def main(ctx):
     pre = gen_predefined(rng, models, per_class) if per_class else []
     ctx.cov['predefined_model_classes'] = sorted(set('%s.%s' % (m, c) for m, c, _ in models if c))
     cases.extend(pre)
+    if nfam:
+        # (generated last: the random sequences of the older streams stay as they were)
+        cases.extend(gen_tie_specs(rng, ctx.pick(90, 600), ctx.pick(70, 500)))
     # ---- implementation
     nchunk = common.NPROC
     order = list(range(len(cases)))
@@ -976,6 +1246,7 @@ def main(ctx):
     fam_store = {}
     build_cases, build_idx, den_cases, den_idx = [], [], [], []
     bm_cases, bm_idx = [], []
+    bond_cases, bond_idx, exp_cases, exp_idx = [], [], [], []
     skipped = {}
     for idx, (case, r) in enumerate(zip(cases, results)):
         if r is None:
@@ -1001,6 +1272,24 @@ def main(ctx):
             den_cases.append(d)
             den_idx.append(idx)
         try:
+            bl, why, problem = bond_literal(r)
+            if problem:
+                ctx.fail('correspondence', 'c10_bond: ' + problem, {'stream': 'c10_bond', 'case': case})
+            if why:
+                skipped[why] = skipped.get(why, 0) + 1
+            if bl:
+                bond_cases.append(bl)
+                bond_idx.append(idx)
+            el, why = exp_literal(r)
+            if why:
+                skipped[why] = skipped.get(why, 0) + 1
+            if el:
+                exp_cases.append(el)
+                exp_idx.append(idx)
+        except Exception:
+            import traceback
+            ctx.fail('correspondence', 'tie literals crashed: ' + traceback.format_exc()[-600:], {'stream': 'c10_bond', 'case': case})
+        try:
             os.unlink(r['npz'])
         except OSError:
             pass
@@ -1013,25 +1302,66 @@ def main(ctx):
              'Coq model of MultiCouplingTerms.add_to_graph (Model/AutomatonMulti.v) does not rebuild the implementation\'s graph / '
              'graph does not denote the stored multi-site terms'),
             ('c10_denote', 'check_denote', den_cases, den_idx,
-             'the verified denotation of the implementation\'s MPO graph (or grids) differs from the normal form of its own term containers')):
+             'the verified denotation of the implementation\'s MPO graph (or grids) differs from the normal form of its own term containers'),
+            ('c10_bond', 'check_bond', bond_cases[:300], bond_idx[:300],
+             'Coq model of calc_H_bond (Model/BondSum.v: to_nn_bond_Arrays + add_to_nn_bond_Arrays with the boundary exceptions) differs '
+             'from the implementation\'s H_bond (exact coefficients of the named operator products, None entries)'),
+            ('c10_expdecay', 'check_expdecay_all', exp_cases[:300], exp_idx[:300],
+             'Coq model of ExponentiallyDecayingTerms.add_to_graph (Model/ExpDecay.v, finite branch) does not rebuild the implementation\'s '
+             'graph edge for edge / graph does not denote sum_{i<j} strength lambda^(j-i) A_i S..S B_j + the other terms')):
         if not cs:
             continue
         mods = ['Base.Prelude', 'Model.Automaton'] + (['Model.AutomatonMulti'] if name == 'c10_build_multi' else [])
+        if name in ('c10_bond', 'c10_expdecay'):
+            mods += ['Model.BondSum', 'Model.ExpDecay', 'Model.AutomatonTieCheck']
         bad, err = common.coq_failing_indices(name, mods, checker, cs, shard=150)
         if err:
             ctx.fail('correspondence', 'model evaluation failed: ' + err[-600:], None)
+        ctx.cov.setdefault('coq_disagreements', {})[name] = len(bad)
         for b in bad[:5]:
             ctx.fail('correspondence', what, {'stream': name, 'case': cases[ids[b]], 'literal': cs[b][:3000]})
         for i, _ in enumerate(cs):
             ctx.count(name, [name, ids[i], i], nontrivial=True)
-    ctx.cov['traces_validated_against_impl'] = len(build_cases) + len(bm_cases) + len(den_cases)
+    # ---- MultiCouplingTerms.add_multi_coupling_term vs split_term (Model/AutomatonMulti.v)
+    nsplit = 0
+    if nfam or (replay or {}).get('stream') == 'c10_split':
+        scases = [replay['args']] if (replay or {}).get('stream') == 'c10_split' else gen_split_cases(rng, ctx.pick(200, 300))
+        sres, err = common.run_impl('c10_impl.py', {'kind': 'split_terms', 'cases': scases})
+        if err:
+            ctx.fail('correspondence', 'c10_split: runner failed: ' + err[-400:], None)
+            sres = []
+        slits, sidx = [], []
+        for n, (c, res) in enumerate(zip(scases, sres)):
+            sl = split_literal(c, res)
+            if sl is None:
+                ctx.fail('correspondence', 'c10_split: add_multi_coupling_term failed or stored no single connection: %r' % (res,),
+                         {'stream': 'c10_split', 'args': c})
+                continue
+            slits.append(sl)
+            sidx.append(n)
+        if slits:
+            bad, err = common.coq_failing_indices('c10_split', ['Base.Prelude', 'Model.Automaton', 'Model.AutomatonMulti',
+                                                                'Model.AutomatonTieCheck'], 'check_split', slits, shard=150)
+            if err:
+                ctx.fail('correspondence', 'model evaluation failed: ' + err[-600:], None)
+            ctx.cov.setdefault('coq_disagreements', {})['c10_split'] = len(bad)
+            for b in bad[:5]:
+                ctx.fail('correspondence', 'split_term (Model/AutomatonMulti.v) differs from the form stored by '
+                         'MultiCouplingTerms.add_multi_coupling_term, or the stored form is not the operator of the arguments',
+                         {'stream': 'c10_split', 'args': scases[sidx[b]], 'stored': sres[sidx[b]], 'literal': slits[b][:2000]})
+            for i, _ in enumerate(slits):
+                ctx.count('c10_split', ['c10_split', scases[sidx[i]]], nontrivial=True)
+            nsplit = len(slits)
+    ctx.cov['traces_validated_against_impl'] = len(build_cases) + len(bm_cases) + len(den_cases) + len(bond_cases) + len(exp_cases) + nsplit
+    ctx.cov['c10_bond_cases'] = len(bond_cases)
+    ctx.cov['c10_expdecay_cases'] = len(exp_cases)
     ctx.cov['c10_build_multi_cases'] = len(bm_cases)
     ctx.cov['coq_skipped'] = skipped
     ctx.assumptions += [
         'C10 model: operators are formal words over operator NAMES (no algebraic relations between named operators); the dense oracle covers the matrices',
-        'C10 Coq models of exponentially decaying terms (Model/ExpDecay.v) and of H_bond (Model/BondSum.v) are proved but not executed against '
-        'the implementation (their graphs / bond arrays are covered by c10_denote and the dense oracle); the invariant mwf of multi-site '
-        'graphs is a Prop and is not evaluated on implementation data',
+        'C10 c10_bond: H_bond[j] is decomposed into named operator products by a numerical linear solve (residual <= 1e-9) before the exact '
+        'comparison in Coq; only explicit_plus_hc=False and plain CouplingTerms; c10_expdecay: finite chains, uniform Gaussian-integer lambda, '
+        'default subsites; the invariant mwf of multi-site graphs is a Prop and is not evaluated on implementation data',
         'C10 not modelled in Coq: infinite boundary conditions (construction; '
         'their graphs are denoted on an unrolled window), charges of virtual legs, group_sites/extract_segment (dense oracle only)',
         'local operator matrices and Jordan-Wigner flags are taken from tenpy.networks.site (property C12)',
@@ -1044,4 +1374,5 @@ def main(ctx):
 RULE = ('models: random coupling models (chain/ladder/square/triangular/honeycomb, open/periodic/infinite, spin/boson/fermion/mixed sites, '
         'integer/Gaussian/float/complex scalar and site-dependent strengths, all add_* calls, plus_hc x explicit_plus_hc x manual h.c., '
         'sort_mpo_legs, group_sites, extract_segment, enlarge_mps_unit_cell), non-trivial when at least one term lies in the window; '
-        'predefined: every model class of tenpy.models x parameter sets x conserve options; c10_build / c10_build_multi / c10_denote: Coq evaluations.')
+        'predefined: every model class of tenpy.models x parameter sets x conserve options; c10_build / c10_build_multi / c10_denote / c10_bond / '
+        'c10_expdecay / c10_split: Coq evaluations (model recomputes what the implementation returned).')
